@@ -398,7 +398,7 @@ ext_parse!(c14_ext_backing_format_4, 0xe2792aca, 4);
 
 // @harness c15_header_roundtrip
 // @props C15 C16
-// @tier quick
+// @tier thorough
 // @cost 120
 // @timeout 900
 // @cbmc --max-field-sensitivity-array-size 256
@@ -435,4 +435,94 @@ fn c15_header_roundtrip() {
         core::mem::forget(out);
         core::mem::forget(h);
     }
+}
+
+// @harness c14_ext_walk
+// @props C14
+// @tier quick
+// @cost 120
+// @timeout 1200
+// @cbmc --max-field-sensitivity-array-size 256
+// @desc the header-extension walk of from_buf on a valid 64 KiB-cluster header followed by one extension of UNKNOWN type whose length field is arbitrary, in a buffer (136 bytes) much shorter than the cluster: never panics; an extension whose data would run past the end of the buffer is refused with Err; one that fits is kept with exactly its length, and the walk terminates at the END marker
+// @bounds buffer 136 bytes; extension type: any u32 except the two known codes and END; extension length field: any u32; bytes after the extension header are zero (so the walk ends at an END marker wherever it resumes)
+// @funcs Qcow2Header::from_buf (extension walk) Qcow2HeaderExtension::from (Unknown / End arms)
+// @stub alloc::fmt::format -> String::new()
+#[kani::proof]
+#[kani::unwind(5)]
+#[kani::stub(alloc::fmt::format, fmt_stub)]
+fn c14_ext_walk() {
+    let mut buf = [0u8; 136];
+    let f = Fields {
+        version: 3, cluster_bits: 16, size: 1 << 30, crypt_method: 0, l1_size: 2, l1_table_offset: 0x30000,
+        refcount_table_offset: 0x10000, refcount_table_clusters: 1, nb_snapshots: 0, snapshots_offset: 0,
+        incompatible: 0, compatible: 0, autoclear: 0, refcount_order: 4, header_length: HLEN as u32,
+        compression_type: 0,
+    };
+    emit(&mut buf, &f);
+    let ty: u32 = kani::any();
+    kani::assume(ty != 0 && ty != 0xe2792aca && ty != 0x6803f857);
+    let len: u32 = kani::any();
+    put32(&mut buf, 112, ty);
+    put32(&mut buf, 116, len);
+    let r = Qcow2Header::from_buf(&buf);
+    // data occupies [120, 120+len); the next extension header needs 8 more bytes after padding
+    let fits = (len as u64) <= 16;
+    let next = 120 + ((len as u64 + 7) & !7);
+    match &r {
+        Ok(h) => {
+            assert!(fits && next + 8 <= 136);
+            assert!(h.extensions.len() == 1);
+            if let Qcow2HeaderExtension::Unknown { extension_type, data } = &h.extensions[0] {
+                assert!(*extension_type == ty && data.len() == len as usize);
+            } else {
+                assert!(false);
+            }
+        }
+        Err(_) => assert!(!fits || next + 8 > 136),
+    }
+    kani::cover!(r.is_ok() && len == 8);
+    kani::cover!(r.is_err() && len == 17);
+    kani::cover!(r.is_err() && len == u32::MAX);
+    core::mem::forget(r);
+}
+
+// @harness c09_header_v2
+// @props C09 C14
+// @tier quick
+// @cost 60
+// @timeout 900
+// @cbmc --max-field-sensitivity-array-size 256
+// @desc a spec-valid VERSION 2 header (72 bytes, followed by the END extension, the rest of the sector zero or arbitrary) is accepted and gets the defaults the specification defines for version 2: refcount_order 4, header_length 72 (so the extension walk starts right behind the 72-byte header and finds no extension), no feature bits; the v2 numeric fields are returned unchanged
+// @bounds buffer 120 bytes; cluster_bits 9..=21, size, l1_size, table offsets (aligned), refcount_table_clusters (1..=8 MiB), snapshot fields symbolic; bytes 80..100 and 104..120 arbitrary; bytes 72..80 (END extension) and 100..104 zero
+// @funcs Qcow2Header::from_buf (version 2 handling, extension walk)
+// @stub alloc::fmt::format -> String::new()
+#[kani::proof]
+#[kani::unwind(4)]
+#[kani::stub(alloc::fmt::format, fmt_stub)]
+fn c09_header_v2() {
+    let mut f = any_fields();
+    f.version = 2;
+    f.crypt_method = 0;
+    kani::assume(f.cluster_bits >= 9 && f.cluster_bits <= 21);
+    let cs = 1u64 << f.cluster_bits;
+    kani::assume(f.l1_table_offset & (cs - 1) == 0 && f.refcount_table_offset & (cs - 1) == 0);
+    kani::assume(f.refcount_table_clusters >= 1 && (f.refcount_table_clusters as u64) << f.cluster_bits <= 8 << 20);
+    let mut buf = [0u8; 120];
+    emit(&mut buf, &f);
+    // what follows the 72-byte v2 header: END extension, then bytes a v2 writer never defined
+    put64(&mut buf, 72, 0);
+    put32(&mut buf, 100, 0);
+    let r = Qcow2Header::from_buf(&buf);
+    assert!(r.is_ok());
+    if let Ok(h) = &r {
+        assert!(h.version() == 2);
+        assert!(h.refcount_order() == 4);
+        assert!(h.header_length() == 72);
+        assert!(h.extensions.is_empty());
+        assert!(h.compression_type() == 0);
+        assert!(h.cluster_bits() == f.cluster_bits && h.size() == f.size);
+        assert!(h.l1_table_offset() == f.l1_table_offset && h.reftable_offset() == f.refcount_table_offset);
+        kani::cover!(f.compatible != 0, "garbage in the bytes a v3 header uses for feature bits");
+    }
+    core::mem::forget(r);
 }
